@@ -212,19 +212,23 @@ func (config Config) NewSession(nic string) (session *Session, err error) {
 
 	// create our own Host entry manually because we don't create for host packets
 	host, _ := session.findOrCreateHostWithLock(session.NICInfo.HostAddr4)
+	host.MACEntry.Row.Lock() // the background goroutines are already running
 	host.LastSeen = time.Now().Add(time.Hour * 24 * 365) // never expire
 	host.MACEntry.LastSeen = host.LastSeen
 	host.MACEntry.IP4 = host.Addr.IP
 	host.MACEntry.IP6LLA = session.NICInfo.HostLLA.Addr()
 	host.Online = true
 	host.MACEntry.Online = true
+	host.MACEntry.Row.Unlock()
 
 	// create the router entry manually and set router flag
 	host, _ = session.findOrCreateHostWithLock(session.NICInfo.RouterAddr4)
+	host.MACEntry.Row.Lock()
 	host.MACEntry.IsRouter = true
 	host.MACEntry.IP4 = host.Addr.IP
 	host.Online = true
 	host.MACEntry.Online = true
+	host.MACEntry.Row.Unlock()
 
 	return session, nil
 }
